@@ -537,7 +537,12 @@ def gen_case(rng, encs=None, model_only=False):
         # index field r1 takes few values so that the count value recurs; inputs of equal length
         raws[1]["vals"] = [rng.randint(0, 3) for _ in raws[0]["vals"]]
         raws[1].pop("tail", None); raws[0].pop("tail", None)
-        derived.append(dict(name="mx", kind="X", cnt="r1", cval=rng.randint(0, 3), period=rng.choice([0, 0, 4]), **{"in": "r0"}))
+        # the count value recurs, is rare, or never occurs at all (then every look-back comes back empty)
+        derived.append(dict(name="mx", kind="X", cnt="r1", cval=rng.choice([0, 1, 2, 3, rng.randint(0, 3), 7]), period=rng.choice([0, 0, 4]), **{"in": "r0"}))
+        if rng.random() < 0.3:
+            # long stretches without the count value
+            rare = derived[-1]["cval"]; other = [v for v in (0, 1, 2, 3) if v != rare]
+            raws[1]["vals"] = [rare if rng.random() < 0.04 else rng.choice(other) for _ in raws[0]["vals"]]
         if rng.random() < 0.5:
             derived.append(dict(name="mxl", kind="L", m=2, b=1, **{"in": "mx"}))
     case = dict(enc=enc, spf=spf, foff=foff, raws=raws, derived=derived, consts=consts)
